@@ -65,12 +65,23 @@ UNITS = {
              'claim': 'axiom A1: (n as f64) + 1.0 == (n+1) as f64 exactly for every n < 2^53'},
             {'name': 'cgr_midpoint_half_square', 'complete': True, 'bound': 'none (loop-free, all S in [1,2^20], all m in [0,S])',
              'claim': 'axiom A3: (0+m)/2 in [0,S/2] and (S+m)/2 in [S/2,S]'},
+            {'name': 'cgr_centre_in_square', 'complete': True, 'bound': 'none (loop-free, all S in [1,2^20])',
+             'claim': 'axiom A3 (centre): S/2 in [0,S]'},
         ],
         'trusted': ['CBMC floating-point model (IEEE-754 binary64, round-to-nearest-even)'],
     },
     'mmap_rows': {
         'template': 'mmap_rows.vrs', 'backend': 'verus',
         'serves': ['C14', 'C05'],
+    },
+    'cgr': {
+        'template': 'cgr.vrs', 'backend': 'verus',
+        'serves': ['C11'],
+        'fn_props': {
+            r'^(cgr_maps|CgrComputer::vectorise_one|lemma_cgr_contained)$': ['C11', 'C13'],
+            r'^ocgr::': ['C12', 'C11'],
+            r'^py::': ['C13', 'C11'],
+        },
     },
     'n2k': {
         'template': 'n2k.vrs', 'backend': 'verus',
@@ -153,6 +164,17 @@ PROPS = {
                       'String::len/as_bytes byte length, MMWriter::write_at modelled by its stated safety precondition plus the slot discipline (the raw ptr::copy_nonoverlapping and the mmap itself are unsafe code outside the tools); '
                       'assumed: a normalised value in [0,1] formats to exactly 8 bytes with {:.6}; header line < 4 GiB. Coverage and counter unchecked accesses are decided in their own units when listed among the bundles.',
         'not_reached': ['the glue between the lifted fragments (closure captures, `let header_len = header.len()`, the Mutex-guarded record hand-out)', 'unsafe pointer copy inside MMWriter::write_at; memmap2'],
+    },
+    'C11': {
+        'units': ['cgr', 'float_kani'], 'deps': [], 'replay': 'c11',
+        'level_text': 'Verus proves for the verbatim cgr_maps (both copies) and vectorise_one (core and Python binding), for every byte string: the corner table is exactly '
+                      '{A,a->(0,0); C,c->(0,S); G,g->(S,S); T,t,U,u->(S,0)} with no other key and the centre is (S/2,S/2); Ok(v) iff every byte is a nucleotide letter, then one point per base and '
+                      'point i == midpoint(corner(base i), point i-1 or centre) (so it depends only on the first i bases); any other byte gives Err and no coordinates. Spec-level lemma: every '
+                      'point lies in the square and in the half square of its base corner, from the one-step float axiom A3 which Kani discharges on real f64 for S in [1,2^20].',
+        'level_note': 'trusted: Verus/Z3, vstd HashMap model; extractor rules R1 R2 R6 R7 R8 R9 R10; R8 stub array-of-pairs.iter().cloned().collect() == successive inserts; float operations '
+                      'abstract (R9) with axiom A3 (Kani) and S == of_nat(n); containment in the sub-square of side S/2^j for j > 1 and exact dyadic values need real-number float semantics: not decided. '
+                      'The file path (.unwrap() on a rejected record panics inside rayon) is process behaviour.',
+        'not_reached': ['sub-square containment beyond one halving (j > 1) and exact dyadic values', 'file-level batching/ordering of cgr.rs::vectorise (see C05-style loop contracts if listed)', 'pyo3 mapping of Err to ValueError'],
     },
 }
 
